@@ -95,6 +95,13 @@ Theorem C15_refines_spec : forall evs, wf_hist evs ->
 Proof. intros evs H. exact (sim_R _ _ (Sim_run evs H)). Qed.
 Print Assumptions C15_refines_spec.
 
+(* The theorem statements as boolean monitors (monitor/PerioSpec.v, which knows nothing of the model) accept the
+   model's own behaviour on every well-formed history: a monitor failure on the implementation's observations is
+   therefore a difference between implementation and model, never an artefact of the monitor. *)
+Theorem C15_monitor_accepts_model : forall evs, wf_hist evs -> monitor evs (map obs_of (trace evs)) = true.
+Proof. exact monitor_accepts_model. Qed.
+Print Assumptions C15_monitor_accepts_model.
+
 (* The source shapes the model was written against (regenerated from /repo on every run): the constant OR-ed
    into the reports, one query and one notify call site, the chunking loop's limit / conditions / resets. *)
 Theorem C15_source_shapes :
